@@ -693,3 +693,165 @@ Example re_plain_nonvacuous :
   re_plain (fun _ _ => OutOfModel) /\ re_plain (fun _ _ => Err EOther) /\
   re_plain (fun pat text => Ok (String.eqb pat text)).
 Proof. exact re_plain_examples. Qed.
+
+(* ================================================================ ADDENDUM 5 (G2): execution
+   errors of EVERY SELECT shape -- GROUP BY / aggregates / ORDER BY / LIMIT.
+
+   select_exec_err_pos_in_query above covers a SELECT that buildFinalPlan turns into a
+   ProjectionPlan over a scan.  Here the statement is the QUERY TEXT run through the text twin of
+   Model/PipelineS.v (plan_stmt_text: lexer, parser with the mid-parse tests, checker, call
+   validation, the folder in place, buildScanPlan, buildFinalPlan incl. AggregatePlan.Init;
+   select_stmt_text_st: that plan drained by Next / by Batch over the slots its scan node reads
+   from the store, errors kept with class and position), whatever plan buildFinalPlan builds:
+   ProjectionPlan, AggregatePlan (with or without a pushed-down LIMIT), FinalOrderPlan and
+   FinalLimitPlan on top.
+
+   What the aggregate / order code adds to the errors of the expressions it evaluates
+   (aggregate_plan.go, aggr_func.go, order_plan.go, read function by function):
+     - the functors' Update raises nothing of its own: its only error is the error of
+       args[0].Execute (sum / avg / min / max over text that is no number is NOT an error:
+       convertToNumber answers 0);
+     - the constructors' errors (quantile / group_concat second parameter, argument counts) are
+       raised by AggregatePlan.Init inside BuildPlan: such a text is not accepted (STReject /
+       STBuildErr of plan_stmt_text, compared with the Go code by C03's text stream and by the
+       g2 stream's `init` cases);
+     - Complete fails only for json_arrayagg (json.Marshal): a plain error without position;
+     - completing a group's row evaluates the folded select field over the Results:
+       `Divide by zero` at the Pos of the DIVISOR node (executeMathOp gets e.Right) -- the twins
+       Model/Aggregate.v / AggregateLazy.v answer only "failed" there (Err EOther);
+       Model/AggErrPos.v adds class and position next to them (select_stmt_text_stp);
+     - the two NewExecuteError(0, ...) of aggregate_plan.go are unreachable inside the twin
+       (a non-key column without calls is never built by Init; a list / JSON value handed to
+       convertToBytes is outside the aggregate twin, SelectPlans.gval), and 0 is covered by the
+       statement anyway;
+     - FinalOrderPlan.findOrderIdx `Cannot find field`: raised by Init; the twin
+       (SelectPlans.with_ords) reports it at 0, covered by the statement. *)
+From KV Require Import Model.Storage Model.Pipeline.
+From KV Require Import Model.SelectPlans Model.PipelineS Model.AggErrPos Proofs.ExecPosStmtProofs.
+From KV Require Import Model.Value.
+From KV Require Model.Order Model.Aggregate Spec.Group.
+
+(* (i) the plan nodes above the evaluators invent no position: a positional error of the drain
+   of ANY shape over the evaluator twins carries 0 or the Pos of a node of a tree the plan
+   executes (WHERE, the select fields, the GROUP BY expressions, the non-aggregate fields, the
+   first arguments of the aggregate calls), row mode and batch mode *)
+Theorem select_shape_err_position :
+  forall (fo : fops) (re : string -> string -> res bool), re_plain re ->
+  forall (ag : aggops fo) (pi pf : string -> option Z) (m : tmode) (c : cstmt fo) (sh : shape)
+         (sl : list (option kvpair)) (p : nat),
+  run_mode fo re ag pi pf m c sh sl = Err (EExec p) \/ run_mode fo re ag pi pf m c sh sl = Err (ESyntax p) ->
+  p = 0 \/ In p (cstmt_run_positions fo c).
+Proof.
+  intros fo re Hre ag pi pf m c sh sl p H.
+  pose proof (run_mode_okp fo re Hre ag pi pf m c sh sl) as Hok.
+  destruct H as [H|H]; rewrite H in Hok; exact Hok.
+Qed.
+Print Assumptions select_shape_err_position.
+
+(* (ii) the trees an accepted text executes carry only positions stored in the parser's
+   statement or in the checked statement *)
+Theorem planned_trees_positions :
+  forall (fo : fops) (re : string -> string -> res bool) (fmt_v : F fo -> string) (q : string) (pl : splanned fo),
+  plan_stmt_text fo re fmt_v q = STOk pl ->
+  incl (cstmt_run_positions fo (sp_q fo pl)) (planned_allpos fo pl).
+Proof. exact planned_positions. Qed.
+Print Assumptions planned_trees_positions.
+
+(* (iii) THE STATEMENT: for every query text q the text pipeline accepts, every store, both
+   modes, every batch size (B >= 1 is not needed): if the drain ends in a positional execution
+   error at z -- an ExecuteError or one of the SyntaxErrors Execute can return -- then z = 0 or
+   z is the offset of a token of q, and z lies inside q.  Full strength, no bound. *)
+Theorem select_stmt_exec_err_pos_in_query :
+  forall (fo : fops) (re : string -> string -> res bool) (fmt_v : F fo -> string), re_plain re ->
+  forall (ag : aggops fo) (pi pf : string -> option Z)
+         (q : string) (pl : splanned fo) (d : store) (m : tmode) (p : nat),
+  plan_stmt_text fo re fmt_v q = STOk pl ->
+  select_stmt_text_st fo re fmt_v ag pi pf q d m = STRunErr (EExec p) \/
+  select_stmt_text_st fo re fmt_v ag pi pf q d m = STRunErr (ESyntax p) ->
+  (Z.of_nat p = 0%Z \/ In (Z.of_nat p) (zstarts (lex q))) /\ pos_in_query q (Z.of_nat p) = true.
+Proof. intros fo re fmt_v Hre ag pi pf q pl d m p. exact (select_stmt_exec_err_pos_lemma fo re fmt_v Hre ag pi pf q pl d m p). Qed.
+Print Assumptions select_stmt_exec_err_pos_in_query.
+
+(* (iv) the same with the errors of AggregatePlan.next / batch (completing a group's row) kept
+   with class and position (Model/AggErrPos.v) *)
+Theorem select_stmt_exec_err_pos_in_query_completion :
+  forall (fo : fops) (re : string -> string -> res bool) (fmt_v : F fo -> string), re_plain re ->
+  forall (ag : aggops fo) (pi pf : string -> option Z)
+         (q : string) (pl : splanned fo) (d : store) (m : tmode) (p : nat),
+  plan_stmt_text fo re fmt_v q = STOk pl ->
+  select_stmt_text_stp fo re fmt_v ag pi pf q d m = STRunErr (EExec p) \/
+  select_stmt_text_stp fo re fmt_v ag pi pf q d m = STRunErr (ESyntax p) ->
+  (Z.of_nat p = 0%Z \/ In (Z.of_nat p) (zstarts (lex q))) /\ pos_in_query q (Z.of_nat p) = true.
+Proof. intros fo re fmt_v Hre ag pi pf q pl d m p. exact (select_stmt_exec_err_pos_stp_lemma fo re fmt_v Hre ag pi pf q pl d m p). Qed.
+Print Assumptions select_stmt_exec_err_pos_in_query_completion.
+
+(* the completion layer changes nothing else: select_stmt_text_stp is select_stmt_text_st
+   except that `STRunErr EOther` may become an ExecuteError (never a SyntaxError); both are
+   C03's select_stmt_text once class and position are dropped *)
+Theorem completion_layer_refines :
+  forall (fo : fops) (re : string -> string -> res bool) (fmt_v : F fo -> string)
+         (ag : aggops fo) (pi pf : string -> option Z) (q : string) (d : store) (m : tmode),
+  (select_stmt_text_stp fo re fmt_v ag pi pf q d m = select_stmt_text_st fo re fmt_v ag pi pf q d m \/
+   (select_stmt_text_st fo re fmt_v ag pi pf q d m = STRunErr EOther /\
+    exists e, nosyn e /\ select_stmt_text_stp fo re fmt_v ag pi pf q d m = STRunErr e)) /\
+  to_tres (select_stmt_text_stp fo re fmt_v ag pi pf q d m) = select_stmt_text fo re fmt_v ag pi pf q d m.
+Proof. intros. split; [apply stp_refines_st | apply stp_same_tres]. Qed.
+Print Assumptions completion_layer_refines.
+
+(* the error a failing completion reports is EOther or an ExecuteError at the Pos of a node of
+   one of the plan's Fields *)
+Theorem completion_err_position :
+  forall (fo : fops) (re : string -> string -> res bool) (ag : aggops fo) (c : cstmt fo) (sh : shape)
+         (m : tmode) (sl : list (option kvpair)) (p : nat),
+  completion_err fo re ag c sh m sl = EExec p -> In p (flat_map positions (agg_fields fo c)).
+Proof.
+  intros fo re ag c sh m sl p H. unfold completion_err in H.
+  destruct (shape_agg sh) as [[st l]|]; [|discriminate].
+  destruct (prepared_rows fo re ag c _ m sl) as [rows| | |]; try discriminate.
+  pose proof (rows_err_ok (F fo) (fadd fo) (fsub fo) (fmul fo) (fdiv fo) (a_is0 fo ag) (f_of_Z fo)
+                          (a_json_f fo ag) (a_json_s fo ag) (agg_fields fo c) rows) as Hok.
+  unfold okerr in Hok. rewrite H in Hok. exact Hok.
+Qed.
+Print Assumptions completion_err_position.
+
+(* ---------------------------------------------------------------- non-vacuity (G2).  For every
+   float structure, oracle, float printer and library float operations. *)
+Definition g2_store : store := [("ka", "12"); ("kb", "7"); ("kc", "0")]%string.
+
+(* an aggregate ARGUMENT fails on the third pair (division by zero, the divisor int(value) at
+   16), with ORDER BY and LIMIT on top, both modes; a GROUP BY expression fails (divisor at 12) *)
+Example select_stmt_exec_err_argument_nonvacuous :
+  forall (fo : fops) (re : string -> string -> res bool) (fmt_v : F fo -> string) (ag : aggops fo)
+         (pi pf : string -> option Z),
+  let q := "select sum(10 / int(value)) as s, count(1) as c where key > '' order by c limit 1" in
+  let q' := "select 10 / int(value) as g, count(1) as c where key > '' group by g order by c desc" in
+  select_stmt_text_st fo re fmt_v ag pi pf q g2_store MRow = STRunErr (EExec 16) /\
+  select_stmt_text_st fo re fmt_v ag pi pf q g2_store (MBatch 2) = STRunErr (EExec 16) /\
+  In 16%Z (zstarts (lex q)) /\
+  select_stmt_text_st fo re fmt_v ag pi pf q' g2_store MRow = STRunErr (EExec 12) /\
+  select_stmt_text_st fo re fmt_v ag pi pf q' g2_store (MBatch 2) = STRunErr (EExec 12) /\
+  In 12%Z (zstarts (lex q')).
+Proof.
+  intros. split; [vm_compute; reflexivity|]. split; [vm_compute; reflexivity|]. split; [vm_compute; tauto|].
+  split; [vm_compute; reflexivity|]. split; [vm_compute; reflexivity|]. vm_compute; tauto.
+Qed.
+
+(* COMPLETING the group of kb (sum = 7) divides by zero: the aggregate twin says "failed"
+   (EOther), the completion layer says ExecuteError at 35, the `-` of the divisor.  With the LIMIT
+   pushed into the AggregatePlan, row mode completes the first group only and succeeds, batch
+   mode (PlanBatchSize 2) completes two groups and fails -- as the Go code does *)
+Example select_stmt_exec_err_completion_nonvacuous :
+  forall (fo : fops) (re : string -> string -> res bool) (fmt_v : F fo -> string) (ag : aggops fo)
+         (pi pf : string -> option Z),
+  let q := "select key, 100 / (sum(int(value)) - 7) as r where key > '' group by key" in
+  let q' := "select key, 100 / (sum(int(value)) - 7) as r where key > '' group by key limit 1" in
+  select_stmt_text_st fo re fmt_v ag pi pf q g2_store MRow = STRunErr EOther /\
+  select_stmt_text_stp fo re fmt_v ag pi pf q g2_store MRow = STRunErr (EExec 35) /\
+  select_stmt_text_stp fo re fmt_v ag pi pf q g2_store (MBatch 2) = STRunErr (EExec 35) /\
+  In 35%Z (zstarts (lex q)) /\ String.get 35 q = Some "-"%char /\
+  select_stmt_text_stp fo re fmt_v ag pi pf q' g2_store MRow = STOk [[Order.VBytes "ka"; Order.VInt 20]] /\
+  select_stmt_text_stp fo re fmt_v ag pi pf q' g2_store (MBatch 2) = STRunErr (EExec 35).
+Proof.
+  intros. split; [vm_compute; reflexivity|]. split; [vm_compute; reflexivity|]. split; [vm_compute; reflexivity|].
+  split; [vm_compute; tauto|]. split; [vm_compute; reflexivity|]. split; vm_compute; reflexivity.
+Qed.
